@@ -1,3 +1,5 @@
+import Batteries.Tactic.Alias
+import GenlmModel.Proofs.Prio
 import GenlmModel.Proofs.Cky
 import GenlmModel.Proofs.Tab
 /-! # C02 — every parser returns the derivation-sum weight of a string
